@@ -1326,4 +1326,103 @@ Section Ins.
   Proof. destruct (init_inv o m) as [HI HR]. exact (run_refines cs _ _ g' HI (init_WF o m) HR). Qed.
   Theorem spec_never_rejects o m cs : Forall annot_ok cs -> s_run (s_init 0 o m) (ctrace (init o m) cs) <> Bad.
   Proof. destruct (init_inv o m) as [HI HR]. exact (run_never_bad cs _ _ HI (init_WF o m) HR). Qed.
+
+  (* ---------------------------------------------------------------- the monitored predicate holds of the model *)
+  Lemma perm_eqb_complete {X} (eqb : X -> X -> bool) (Heq : forall a b, reflect (a = b) (eqb a b)) (l1 : list X) :
+    forall l2, Permutation l1 l2 -> perm_eqb eqb l1 l2 = true.
+  Proof.
+    induction l1 as [|x r IH]; intros l2 HP; cbn.
+    - apply Permutation_nil in HP. now subst.
+    - destruct (remove1 eqb x l2) as [l2'|] eqn:E.
+      + apply IH. apply (remove1_perm eqb Heq) in E. apply (Permutation_cons_inv (a := x)). now rewrite HP, E.
+      + exfalso. apply (remove1_none eqb Heq) in E. apply E. eapply Permutation_in; [exact HP|now left].
+  Qed.
+  Lemma seteq_b_intro (l1 l2 : list nid) : (forall x, In x l1 <-> In x l2) -> seteq_b Nat.eqb l1 l2 = true.
+  Proof.
+    intros H. unfold seteq_b, incl_b. apply andb_true_iff. split; apply forallb_forall; intros x Hx.
+    - destruct (mem_spec Nat.eqb Nat.eqb_spec x l2) as [|Hn]; [reflexivity|]. exfalso. apply Hn. now apply H.
+    - destruct (mem_spec Nat.eqb Nat.eqb_spec x l1) as [|Hn]; [reflexivity|]. exfalso. apply Hn. now apply H.
+  Qed.
+  Lemma abs_keys (h : hugr) x : In x (map fst (a_nodes (abs h))) <-> get_node h x <> None.
+  Proof. cbn [abs a_nodes]. rewrite abs_from_keys. apply iter_nodes_In. Qed.
+  Lemma abs_get (h : hugr) x : aget (a_nodes (abs h)) x = option_map anode_of (get_node h x).
+  Proof. symmetry. apply (get_refines h (abs h) x (Rep_abs h)). Qed.
+  Lemma abs_in (h : hugr) n a : In (n, a) (a_nodes (abs h)) -> exists d, get_node h n = Some d /\ a = anode_of d.
+  Proof.
+    intros Hin. apply (dget_In_iff Nat.eqb Nat.eqb_spec) in Hin; [|destruct (Rep_abs h) as (_ & Hnd0 & _); exact Hnd0].
+    rewrite abs_get in Hin. destruct (get_node h n) as [d|]; [|discriminate]. exists d. split; [reflexivity|].
+    cbn in Hin. congruence.
+  Qed.
+
+  Section Monitor.
+    Variables (op_eqb : Op -> Op -> bool) (meta_eqb : Meta -> Meta -> bool).
+    Hypothesis op_eqb_refl : forall o, op_eqb o o = true.
+    Hypothesis meta_eqb_refl : forall o, meta_eqb o o = true.
+
+    Theorem insert_satisfies_monitored_spec (A B A' : hugr) p m :
+      Inv A -> Inv B -> get_node A p <> None -> IsoFrame A B p m A' ->
+      insert_spec_b op_eqb meta_eqb (abs A) (abs B) (abs A') m p false [] = true.
+    Proof.
+      intros HIA HIB HpA HIF. pose proof HIB as (_ & _ & _ & HTB).
+      destruct (tree_facts B HTB) as ((rb & Erb & Prb) & HparliveB & HonlyrootB).
+      pose proof (if_keys _ _ _ _ _ HIF) as Hk.
+      assert (Hvals : forall v, In v (map snd m) <-> exists c, mget m c = Some v).
+      { intros v. rewrite in_map_iff. split.
+        - intros ([c v'] & E & Hin). cbn in E. subst v'. exists c. now apply (dget_In_iff Nat.eqb Nat.eqb_spec).
+        - intros (c & E). exists (c, v). split; [reflexivity|]. now apply (dget_In_pair Nat.eqb Nat.eqb_spec). }
+      assert (B1 : nodupb Nat.eqb (map fst m) = true)
+        by (destruct (nodupb_spec Nat.eqb Nat.eqb_spec (map fst m)); [reflexivity|contradiction]).
+      assert (B2 : nodupb Nat.eqb (map snd m) = true).
+      { destruct (nodupb_spec Nat.eqb Nat.eqb_spec (map snd m)) as [|Hn]; [reflexivity|]. exfalso. apply Hn.
+        apply NoDup_values; [exact Hk|exact (if_inj _ _ _ _ _ HIF)]. }
+      assert (B3 : seteq_b Nat.eqb (map fst m) (map fst (a_nodes (abs B))) = true).
+      { apply seteq_b_intro. intros c. rewrite mget_keys, abs_keys. apply (if_dom _ _ _ _ _ HIF). }
+      assert (B4 : forallb (fun x => negb (a_live (abs A) x)) (map snd m) = true).
+      { apply forallb_forall. intros v Hv. apply Hvals in Hv. destruct Hv as (c & E).
+        unfold a_live. rewrite abs_get, (if_fresh _ _ _ _ _ HIF c v E). reflexivity. }
+      assert (B5 : seteq_b Nat.eqb (map fst (a_nodes (abs A'))) (map fst (a_nodes (abs A)) ++ map snd m) = true).
+      { apply seteq_b_intro. intros x. rewrite in_app_iff, !abs_keys, Hvals. split.
+        - apply (if_only _ _ _ _ _ HIF).
+        - intros [H|(c & E)].
+          + destruct (get_node A x) as [d|] eqn:Ed; [|congruence]. rewrite (if_old _ _ _ _ _ HIF x d Ed). discriminate.
+          + assert (Hb : exists b, get_node B c = Some b).
+            { destruct (get_node B c) as [b|] eqn:Eb; [eauto|]. exfalso. apply (proj1 (if_dom _ _ _ _ _ HIF c)); congruence. }
+            destruct Hb as (b & Eb). destruct (if_copy _ _ _ _ _ HIF c x b E Eb) as (d' & Ed' & _). congruence. }
+      assert (B6 : nodupb Nat.eqb (map fst (a_nodes (abs A'))) = true).
+      { destruct (nodupb_spec Nat.eqb Nat.eqb_spec (map fst (a_nodes (abs A')))) as [|Hn]; [reflexivity|].
+        exfalso. apply Hn. destruct (Rep_abs A') as (_ & Hnd0 & _). exact Hnd0. }
+      assert (H1 : mapping_bij_b (abs A) (abs B) (abs A') m = true).
+      { unfold mapping_bij_b. now rewrite B1, B2, B3, B4, B5, B6. }
+      assert (H2 : forallb (iso_node_b op_eqb meta_eqb (abs B) (abs A') m p false) (a_nodes (abs B)) = true).
+      { apply forallb_forall. intros [n a] Hin. apply abs_in in Hin. destruct Hin as (b & Eb & ->).
+        assert (Hm : exists n', mget m n = Some n').
+        { destruct (mget m n) as [n'|] eqn:E; [eauto|]. exfalso. apply (proj2 (if_dom _ _ _ _ _ HIF n)); congruence. }
+        destruct Hm as (n' & Em). destruct (if_copy _ _ _ _ _ HIF n n' b Em Eb) as (d' & Ed' & F1 & F2 & F3 & F4 & F5).
+        unfold iso_node_b. rewrite (mapn_get _ _ _ Em), abs_get, Ed'.
+        cbn [option_map anode_of a_op a_meta a_parent a_children a_nout].
+        rewrite F1, F2, F3, F4, F5, op_eqb_refl, meta_eqb_refl, Z.eqb_refl. cbn [andb orb].
+        rewrite (proj1 (reflect_iff _ _ (list_eqb_spec Nat.eqb Nat.eqb_spec _ _)) eq_refl). rewrite !andb_true_r.
+        cbn [abs a_root]. destruct (Nat.eqb_spec n (root B)) as [->|Hne].
+        - assert (b = rb) by congruence. subst b. rewrite Prb. cbn. apply Nat.eqb_refl.
+        - destruct (nd_parent b) as [q|] eqn:Eq; [cbn; apply Nat.eqb_refl|].
+          exfalso. apply Hne. eapply HonlyrootB; eassumption. }
+      assert (H3 : links_b (abs A) (abs B) (abs A') m [] = true).
+      { unfold links_b. apply (perm_eqb_complete link_eqb link_eqb_spec). cbn [abs a_links]. rewrite app_nil_r.
+        exact (if_links _ _ _ _ _ HIF). }
+      assert (H4 : a_live (abs A) p = true).
+      { unfold a_live. rewrite abs_get. destruct (get_node A p); [reflexivity|congruence]. }
+      assert (H5 : forallb (frame_node_b op_eqb meta_eqb (abs B) (abs A') m p []) (a_nodes (abs A)) = true).
+      { apply forallb_forall. intros [n a] Hin. apply abs_in in Hin. destruct Hin as (d & Ed & ->).
+        unfold frame_node_b. rewrite abs_get, (if_old _ _ _ _ _ HIF n d Ed). cbn [option_map].
+        unfold bump_in, bump_out. cbn [fold_left abs a_root].
+        destruct (Nat.eqb n p); cbn [anode_of add_child set_children a_op a_meta a_parent a_children a_nin a_nout
+                                      nd_op nd_meta nd_parent nd_children nd_inps nd_outs];
+          rewrite op_eqb_refl, meta_eqb_refl, !Z.eqb_refl;
+          rewrite (proj1 (reflect_iff _ _ (list_eqb_spec Nat.eqb Nat.eqb_spec _ _)) eq_refl);
+          destruct (nd_parent d); cbn; rewrite ?Nat.eqb_refl; reflexivity. }
+      assert (H6 : Nat.eqb (a_root (abs A')) (a_root (abs A)) = true).
+      { cbn [abs a_root]. rewrite (if_root _ _ _ _ _ HIF). apply Nat.eqb_refl. }
+      unfold insert_spec_b, insert_iso_b, insert_frame_b. now rewrite H1, H2, H3, H4, H5, H6.
+    Qed.
+  End Monitor.
 End Ins.
